@@ -171,6 +171,18 @@ pub fn c08_hashes() -> Vec<HashSpec> {
     v
 }
 
+/// C18: the C08 list plus more Skein output sizes, so that every state size has several instantiations that are not
+/// in the reference implementation's table of precomputed initial values (state shared between the instantiations
+/// of one state size - a cache of derived IVs, say - needs two such siblings in use at the same time).
+pub fn c18_hashes() -> Vec<HashSpec> {
+    let mut v = c08_hashes();
+    let sk = skein_hashes();
+    for n in ["Skein256<7>", "Skein256<77>", "Skein512<33>", "Skein512<100>", "Skein1024<77>", "Skein1024<300>"] {
+        v.push(sk.iter().find(|s| s.name == n).unwrap().clone());
+    }
+    v
+}
+
 pub fn by_family(f: Family) -> Vec<HashSpec> {
     if f == Family::Skein { skein_hashes() } else { fixed_hashes().into_iter().filter(|h| h.family == f).collect() }
 }
